@@ -17,6 +17,7 @@ import (
 	"runtime"
 	"runtime/debug"
 	"runtime/metrics"
+	"strconv"
 	"strings"
 	"sync/atomic"
 
@@ -436,6 +437,34 @@ func c17RefBody(draw func(int) int) []byte {
 		}
 		body = append(append(body, 0x05), mpUint(lo)...)
 		return append(append(body, 0x06), mpUint(hi)...)
+	}
+	if draw(3) == 0 {
+		// about a number's bounds: lower and upper bound within a rounding error of each other, one as float64 and one
+		// as text, or both the same way (which of them is the smaller is the library's to say, consistently)
+		enc := func(which int) []byte {
+			d := []string{"0.3", "0.1", "2.5"}[which%3]
+			switch draw(4) {
+			case 0:
+				f, _ := strconv.ParseFloat(d, 64)
+				b := []byte{0xcb, 0, 0, 0, 0, 0, 0, 0, 0}
+				binary.BigEndian.PutUint64(b[1:], math.Float64bits(f))
+				return b
+			case 1:
+				t := map[string]string{"0.3": "0.29999999999999999", "0.1": "0.10000000000000000001", "2.5": "2.5000000000000000001"}[d]
+				return append(mpStrHeader(len(t)), t...)
+			case 2:
+				t := map[string]string{"0.3": "0.30000000000000004", "0.1": "0.09999999999999999", "2.5": "2.4999999999999999"}[d]
+				return append(mpStrHeader(len(t)), t...)
+			}
+			return append(mpStrHeader(len(d)), d...)
+		}
+		which := draw(3)
+		body := []byte{0x82}
+		if draw(3) != 0 {
+			body = []byte{0x83, 0x01, 0xc2}
+		}
+		body = append(append(append(body, 0x03, 0x92), enc(which)...), 0xc2+byte(draw(2)))
+		return append(append(append(body, 0x04, 0x92), enc(which)...), 0xc2+byte(draw(2)))
 	}
 	n := 1 + draw(4)
 	body := []byte{0x80 | byte(n)}
@@ -1368,7 +1397,8 @@ func simC17Store(c *Ctx) {
 	ri := c.G(nRec)
 	rec := store[ri]
 	forced := false
-	if c.G(6000) == 0 {
+	nestDoc := c.G(12000) == 0
+	if c.G(6000) == 0 || nestDoc {
 		forced = true
 		// the documents of the recorded finding on huge exponents (known_findings.txt), read back undamaged with the
 		// type that makes the decoder hash and compare the number: every batch meets them
@@ -1381,7 +1411,7 @@ func simC17Store(c *Ctx) {
 			{`{"a":1e-9999}`, &TDesc{K: KObject, Names: []string{"a"}, Elems: []*TDesc{tString}}}}
 		d := docs[c.G(len(docs))]
 		rec = c17Record{codec: "json", data: []byte(d.doc), t: d.t, enc: d.t, desc: d.doc}
-		if c.G(3) == 0 {
+		if nestDoc {
 			// ... and once in a while a record of hundreds of thousands of levels that is nothing but nesting: what a decoder needs
 			// per level (a stack frame, a path step) is paid millions of times. Read back as it is, with a
 			// dynamic target.
